@@ -302,6 +302,7 @@ func c15NoRefDropped(w *World, r *Report, sp *packages.Package) {
 // must pass the true edge of an authorization call; no path (an early
 // `continue`, a memo of already-seen names) may skip the check for a usage.
 func c15EveryUsageChecked(w *World, r *Report) {
+	r.Rule("R-C15-8", "in each authorizer a caller whose tables must be checked reaches a success return only through the exit of the loop over Tables(): no earlier test (statement kind, DSN-wide authority) answers for the tables the statement reads", 2)
 	r.Rule("R-C15-6", "loop must-pass-through: in each authorizer every iteration of the loop over Tables() crosses the true edge of an authorization call (Authorized / authorizedForTable / authorizedForDDL); the no-case-matched exit of the exhaustive UsageMode switch is treated as infeasible", 2)
 
 	type target struct{ pkg, fn string }
@@ -409,6 +410,60 @@ func c15EveryUsageChecked(w *World, r *Report) {
 			r.Violate("R-C15-6", key, w.pos(fn.Pos()), "fewer than three authorization branches found in the loop over Tables()")
 
 			continue
+		}
+
+		// ---- R-C15-8: a checked caller gets a success answer only after the loop has seen every table
+		{
+			key8 := fnKey(fn) + "|success only after the Tables() loop"
+
+			// edges that leave the loop from its header (the loop is done), and the
+			// edges on which no check applies (administrator / no session)
+			cuts8 := cutEdges(fn, func(f Fact) bool {
+				if f.Kind != "true" {
+					return false
+				}
+
+				_, isCmp := f.V.(*ssa.BinOp)
+				_, isCall := f.V.(*ssa.Call)
+
+				return !isCmp && !isCall // a boolean flag: noAuthCheck, session.Admin
+			})
+
+			for i, succ := range loop.header.Succs {
+				if !loop.body[succ] {
+					cuts8[Edge{loop.header, i}] = true
+				}
+			}
+
+			bad := ""
+
+			for b := range reach(fn.Blocks[0], cuts8, nil) {
+				ret, ok := b.Instrs[len(b.Instrs)-1].(*ssa.Return)
+				if !ok || loop.body[b] {
+					continue
+				}
+
+				res := retResults(ret)
+				last := res[len(res)-1]
+
+				success := false
+
+				if isErrorType(last.Type()) {
+					success = isNilConst(last)
+				} else if k, isC := constInt(last); isC {
+					success = k == 200
+				}
+
+				if success {
+					bad = w.pos(ret.Pos())
+				}
+			}
+
+			if bad != "" {
+				r.Violate("R-C15-8", key8, bad, "a caller whose tables must be checked is answered with success at "+bad+" without the loop over Tables() having run to its end: the tables the statement reads (CREATE TABLE … AS SELECT, CREATE VIEW) are never compared with the caller's grants")
+			} else {
+				r.Discharge("R-C15-8", key8, w.pos(fn.Pos()), "every success return of a checked caller lies behind the exit of the loop over Tables()")
+			}
 		}
 
 		if latch := iterationAvoiding(loop, cuts, func(ssa.Instruction) bool { return false }); latch != nil {
